@@ -980,6 +980,9 @@ void BW_MidiSequencer::buildTimeLine(const std::vector<MidiEvent> &tempos,
     m_trackBeginPosition = m_currentPosition;
     // Initial loop position will begin at begin of track until passing of the loop point
     m_loopBeginPosition  = m_currentPosition;
+    // Returning to these positions must return to their tempo too
+    m_trackBeginTempo = m_tempo;
+    m_loopBeginTempo = m_tempo;
     // Set lowest level of the loop stack
     m_loop.stackLevel = -1;
 
@@ -996,10 +999,12 @@ void BW_MidiSequencer::buildTimeLine(const std::vector<MidiEvent> &tempos,
         bool scanDone = false;
         const size_t  trackCount = m_currentPosition.track.size();
         Position      rowPosition(m_currentPosition);
+        fraction<uint64_t> scanTempo = m_tempo;
 
         while(!scanDone)
         {
             const Position      rowBeginPosition(rowPosition);
+            const fraction<uint64_t> rowBeginTempo = scanTempo;
 
             for(size_t tk = 0; tk < trackCount; ++tk)
             {
@@ -1016,6 +1021,8 @@ void BW_MidiSequencer::buildTimeLine(const std::vector<MidiEvent> &tempos,
                     for(size_t i = 0; i < track.pos->events.size(); i++)
                     {
                         const MidiEvent &evt = track.pos->events[i];
+                        if(evt.type == MidiEvent::T_SPECIAL && evt.subtype == MidiEvent::ST_TEMPOCHANGE)
+                            scanTempo = m_invDeltaTicks * fraction<uint64_t>(readBEint(evt.data.data(), evt.data.size()));
                         if(evt.type == MidiEvent::T_SPECIAL && evt.subtype == MidiEvent::ST_LOOPSTART)
                         {
                             caughLoopStart++;
@@ -1054,6 +1061,7 @@ void BW_MidiSequencer::buildTimeLine(const std::vector<MidiEvent> &tempos,
             {
                 m_loopBeginPosition = rowBeginPosition;
                 m_loopBeginPosition.absTimePosition = m_loopStartTime;
+                m_loopBeginTempo = rowBeginTempo;
                 scanDone = true;
             }
 
@@ -1194,6 +1202,7 @@ bool BW_MidiSequencer::processEvents(bool isSeek)
     m_loop.caughtEnd = false;
     const size_t        trackCount = m_currentPosition.track.size();
     const Position      rowBeginPosition(m_currentPosition);
+    const fraction<uint64_t> rowBeginTempo = m_tempo;
     bool     doLoopJump = false;
     unsigned caughLoopStart = 0;
     unsigned caughLoopStackStart = 0;
@@ -1314,7 +1323,10 @@ bool BW_MidiSequencer::processEvents(bool isSeek)
         m_currentPosition.wait += t.value();
 
     if(caughLoopStart > 0 && m_loopBeginPosition.absTimePosition <= 0.0)
+    {
         m_loopBeginPosition = rowBeginPosition;
+        m_loopBeginTempo = rowBeginTempo;
+    }
 
     if(caughLoopStackStart > 0)
     {
@@ -1419,11 +1431,13 @@ bool BW_MidiSequencer::processEvents(bool isSeek)
         if(m_loop.temporaryBroken)
         {
             m_currentPosition = m_trackBeginPosition;
+            m_tempo = m_trackBeginTempo;
             m_loop.temporaryBroken = false;
         }
         else if(m_loop.loopsCount < 0 || m_loop.loopsLeft >= 1)
         {
             m_currentPosition = m_loopBeginPosition;
+            m_tempo = m_loopBeginTempo;
             if(m_loop.loopsCount >= 1)
                 m_loop.loopsLeft--;
         }
@@ -2221,6 +2235,8 @@ double BW_MidiSequencer::getLoopEnd()
 void BW_MidiSequencer::rewind()
 {
     m_currentPosition   = m_trackBeginPosition;
+    if(!m_currentPosition.track.empty())
+        m_tempo         = m_trackBeginTempo;
     m_atEnd             = false;
 
     m_loop.loopsCount = m_loopCount;
